@@ -357,13 +357,12 @@ impl Variant {
             Err(VariantError::DivisionByZero)
         } else {
             match round_left {
+                // the rounded operands are numbers; anything that does not fit an integer is too big
                 Self::VInteger(i_left) => match round_right {
                     Self::VInteger(i_right) => Ok(Self::VInteger(i_left % i_right)),
-                    Self::VLong(_) => Err(VariantError::Overflow),
-                    _ => Err(VariantError::TypeMismatch),
+                    _ => Err(VariantError::Overflow),
                 },
-                Self::VLong(_) => Err(VariantError::Overflow),
-                _ => Err(VariantError::TypeMismatch),
+                _ => Err(VariantError::Overflow),
             }
         }
     }
